@@ -252,6 +252,8 @@ pub(crate) fn blend<S: Sample>(
         let mut target_grid;
         let target_region;
         let target_subgrid;
+        // Rectangle (in the coordinates of the new frame) that `target_subgrid` and `base_alpha` cover.
+        let base_window;
         let mut clone_empty = false;
         if let Some(grid) = ref_grid {
             if grid.frame.header().is_keyframe() {
@@ -270,6 +272,7 @@ pub(crate) fn blend<S: Sample>(
                     tracker,
                 )?);
                 target_region = output_frame_region;
+                base_window = output_frame_region;
                 target_subgrid = target_grid.as_float_mut().unwrap().as_subgrid_mut();
             } else {
                 let base_frame_header = grid.frame.header();
@@ -290,21 +293,36 @@ pub(crate) fn blend<S: Sample>(
                     base_frame_header.x0 - header.x0,
                     base_frame_header.y0 - header.y0,
                 );
+                // The base frame was rendered for the requested region padded for its own needs; the
+                // region padded for this frame (e.g. for its upsampling) can be larger. Blend where the
+                // base (and its alpha) is available.
+                let base_alpha_region = alpha_idx
+                    .filter(|alpha_idx| alpha_idx + color_channels != idx)
+                    .map(|alpha_idx| {
+                        base_grid.regions_and_shifts()[alpha_idx + color_channels]
+                            .0
+                            .translate(
+                                base_frame_header.x0 - header.x0,
+                                base_frame_header.y0 - header.y0,
+                            )
+                    });
+                base_window = target_region
+                    .intersection(base_alpha_region.unwrap_or(target_region))
+                    .intersection(output_frame_region);
+                let window_in = |region: Region| {
+                    let left = base_window.left.abs_diff(region.left) as usize;
+                    let top = base_window.top.abs_diff(region.top) as usize;
+                    (
+                        left..(left + base_window.width as usize),
+                        top..(top + base_window.height as usize),
+                    )
+                };
+                let _ = base_frame_region;
+
                 let target_grid = target_grid.convert_to_float_modular(bit_depth)?;
                 target_subgrid = {
-                    let grid_region = base_grid.regions_and_shifts()[idx].0;
-                    let region = base_frame_region.translate(-grid_region.left, -grid_region.top);
-                    let Region {
-                        left,
-                        top,
-                        width,
-                        height,
-                    } = region;
-                    let right = left.wrapping_add_unsigned(width);
-                    let bottom = top.wrapping_add_unsigned(height);
-                    target_grid
-                        .as_subgrid_mut()
-                        .subgrid(left as usize..right as usize, top as usize..bottom as usize)
+                    let (xs, ys) = window_in(target_region);
+                    target_grid.as_subgrid_mut().subgrid(xs, ys)
                 };
 
                 if let Some(alpha_idx) = alpha_idx
@@ -315,21 +333,8 @@ pub(crate) fn blend<S: Sample>(
                     let base_alpha_grid =
                         base_alpha_grid.convert_to_float_modular(alpha_bit_depth)?;
                     base_alpha = Some({
-                        let grid_region =
-                            base_grid.regions_and_shifts()[alpha_idx + color_channels].0;
-                        let region =
-                            base_frame_region.translate(-grid_region.left, -grid_region.top);
-                        let Region {
-                            left,
-                            top,
-                            width,
-                            height,
-                        } = region;
-                        let right = left.wrapping_add_unsigned(width);
-                        let bottom = top.wrapping_add_unsigned(height);
-                        base_alpha_grid
-                            .as_subgrid()
-                            .subgrid(left as usize..right as usize, top as usize..bottom as usize)
+                        let (xs, ys) = window_in(base_alpha_region.unwrap());
+                        base_alpha_grid.as_subgrid().subgrid(xs, ys)
                     });
                 }
             }
@@ -341,9 +346,11 @@ pub(crate) fn blend<S: Sample>(
                 tracker,
             )?);
             target_region = output_frame_region;
+            base_window = output_frame_region;
             target_subgrid = target_grid.as_float_mut().unwrap().as_subgrid_mut();
         }
 
+        let clipped_original_frame_region = clipped_original_frame_region.intersection(base_window);
         if clipped_original_frame_region.is_empty() {
             // No sample of the new frame falls into the output region (and the new grid may be
             // zero-sized); the base is the result.
@@ -428,10 +435,10 @@ pub(crate) fn blend<S: Sample>(
         blend_params.base_topleft = (
             clipped_original_frame_region
                 .left
-                .abs_diff(output_frame_region.left) as usize,
+                .abs_diff(base_window.left) as usize,
             clipped_original_frame_region
                 .top
-                .abs_diff(output_frame_region.top) as usize,
+                .abs_diff(base_window.top) as usize,
         );
         blend_params.new_topleft = (0, 0);
         blend_params.width = clipped_width;
